@@ -197,3 +197,15 @@ Theorem C17_generate_permuted_same_set : forall s d L,
     /\ (forall v, In v L -> exists v', In v' L' /\ ceq v v').
 Proof. exact generate_permuted_same_set. Qed.
 Print Assumptions C17_generate_permuted_same_set.
+
+From Verif Require Import Model.SweepSeq Proofs.SweepSeqFacts.
+
+(* operation sequences on shared objects (product / + / filtered_sweep / add_derivers): in the model no operation
+   modifies an object that already exists - except `+` with a MultiSweep on the left, which extends it in place
+   (known finding multisweep-add-mutates-left); the correspondence check observes list()/len() of every operand and
+   every earlier result after each step on the real objects *)
+Theorem C17_operations_preserve_objects : forall h slots op h' id,
+  step h slots op = SNew h' id -> ~ mutating h slots op ->
+  forall k o, nth_error h k = Some o -> nth_error h' k = Some o.
+Proof. exact step_preserves_objects. Qed.
+Print Assumptions C17_operations_preserve_objects.
